@@ -2,7 +2,10 @@ package pkcs7
 
 import (
 	"bytes"
+	"crypto"
+	"crypto/rand"
 	"crypto/sha256"
+	"time"
 	"crypto/x509"
 	"math/big"
 
@@ -112,5 +115,39 @@ func VC04_VerifySound() {
 		good = vsym.Or(good, vsym.And(id, sigOK, mdOK))
 	}
 	vsym.Assert(good, "success only for a signer entry naming the certificate, validly signed, whose message digest is the SHA-256 of the encapsulated content")
+	vsym.Reach("end")
+}
+
+// VC04_AttributeBytes: the signature must be checked over the signed attributes exactly as they
+// appear in the blob.  The three standard attributes are signed in one order (any of the 6) and
+// placed in the blob in another (any of the 6): verification succeeds iff the orders are the same.
+func VC04_AttributeBytes() {
+	signer := vsym.Signer("k1")
+	serial := vsym.BytesN("serial", 2)
+	vsym.Assume(serial[0] != 0)
+	cert := vsym.Cert(signer, serial)
+	content := vsym.BytesN("content", 4)
+	md := sha256.Sum256(content)
+	now := time.Now().UTC()
+	attr := [][]byte{
+		vDER(0x30, vCat(vOIDContentTy, vDER(0x31, vOIDData))),
+		vDER(0x30, vCat(vOIDSignTime, vDER(0x31, vDER(0x17, []byte(now.Format("060102150405Z0700")))))),
+		vDER(0x30, vCat(vOIDMsgDigest, vDER(0x31, vDER(0x04, md[:])))),
+	}
+	perms := [][3]int{{0, 1, 2}, {0, 2, 1}, {1, 0, 2}, {1, 2, 0}, {2, 0, 1}, {2, 1, 0}}
+	ps, pb := perms[vsym.Pick("signed.order", 6)], perms[vsym.Pick("blob.order", 6)]
+	signedInner := vCat(attr[ps[0]], attr[ps[1]], attr[ps[2]])
+	blobInner := vCat(attr[pb[0]], attr[pb[1]], attr[pb[2]])
+	d := sha256.Sum256(vDER(0x31, signedInner))
+	sig, _ := signer.Sign(rand.Reader, d[:], crypto.SHA256)
+	algSHA := vDER(0x30, vCat(vOIDSHA256, vNULL))
+	si := vDER(0x30, vCat([]byte{0x02, 0x01, 0x01}, vDER(0x30, vCat(cert.RawIssuer, vRefInteger(serial))), algSHA,
+		vDER(0xa0, blobInner), vDER(0x30, vCat(vOIDRSA, vNULL)), vDER(0x04, sig)))
+	sd := vDER(0x30, vCat([]byte{0x02, 0x01, 0x01}, vDER(0x31, algSHA), vDER(0x30, vCat(vOIDData, vDER(0xa0, vDER(0x04, content)))), vDER(0xa0, cert.Raw), vDER(0x31, si)))
+	p, err := ParsePKCS7(sd)
+	vsym.Assert(err == nil, "the blob parses")
+	ok, _ := p.Verify(cert)
+	same := ps == pb
+	vsym.Assert(ok == same, "verification succeeds exactly when the attribute bytes in the blob are the bytes that were signed")
 	vsym.Reach("end")
 }
